@@ -511,7 +511,7 @@ def gen_program(rng):
             if k < 0.6:
                 return ["x", rng.choice(["len", "pos", "end"])]
             if k < 0.8:
-                return [str(rng.randint(-1, 6)), "x", "skip"]
+                return [str(rng.choice([-4, -2, -1, -1, 0, 1, 2, 3, 4, 6])), "x", "skip"]
             return [str(rng.randint(-1, 26)), "x", "seek"]
         cands = [w for w in words if not (inloop and w in tainted)]
         if cands and r < 0.97:
